@@ -351,7 +351,7 @@ func (w *world) setPairs(ctx sdk.Context, ss *seqState, ps []pair) {
 		cps = append(cps, types.NewConversionPair(ss.addrs[x.c], x.d))
 	}
 	p.EnabledConversionPairs = cps
-	w.k.SetParams(ctx, p)
+	kapp.SetParams(w.tApp, ctx, "evmutil", &p, func() { w.k.SetParams(ctx, p) })
 }
 
 func (w *world) setAllowed(ctx sdk.Context, ds []string) {
@@ -361,7 +361,7 @@ func (w *world) setAllowed(ctx sdk.Context, ds []string) {
 		ts = append(ts, tokenMeta[d])
 	}
 	p.AllowedCosmosDenoms = ts
-	w.k.SetParams(ctx, p)
+	kapp.SetParams(w.tApp, ctx, "evmutil", &p, func() { w.k.SetParams(ctx, p) })
 }
 
 func subset(r *c.Rng, n int) []int {
